@@ -53,7 +53,9 @@ def case_strategy(draw, tier):
     return {"fixed": fixed.tolist(), "mobile": mob.tolist(), "edges": edges, "lengths": lengths,
             "restr": restr, "deform": list(deform), "steps": steps,
             "sigma": draw(st.sampled_from([0.5, 0.2, 1.0])), "width": draw(st.sampled_from([0.1, 0.3, 1.0])),
-            "seed": draw(gen.SEEDS), "mem": [draw(st.sampled_from(gen.ARRAY_LAYOUTS)), draw(st.sampled_from(gen.ARRAY_LAYOUTS))]}
+            "seed": draw(gen.SEEDS),
+            "mem": [draw(st.sampled_from(gen.ARRAY_LAYOUTS)),
+                    draw(st.sampled_from(gen.ARRAY_LAYOUTS + (["float32", "float32"] if tuple(deform) == (0,) else [])))]}
 
 
 class Recorder:
@@ -118,6 +120,10 @@ def explain_move(held, prop, deform, atommove, edges):
 def check(case):
     fixed = np.array(case["fixed"], float)
     mob0 = np.array(case["mobile"], float)
+    if case.get("mem", ["C", "C"])[1] == "float32":
+        # single-precision coordinates (as trajectory readers deliver them); only for translation-only searches:
+        # rotations and single-atom moves of a single-precision array are themselves only single-precision exact
+        mob0 = mob0.astype(np.float32).astype(float)
     edges = [tuple(e) for e in case["edges"]]
     tab = bond_table(len(mob0), edges, case["lengths"])
     restr = [tuple(r) for r in case["restr"]]
@@ -128,7 +134,8 @@ def check(case):
     try:
         np.random.seed(case["seed"])
         mem = case.get("mem", ["C", "C"])
-        fixed_in, mob_in = gen.as_layout(fixed, mem[0]), gen.as_layout(mob0, mem[1])
+        fixed_in = gen.as_layout(fixed, mem[0])
+        mob_in = mob0.astype(np.float32) if mem[1] == "float32" else gen.as_layout(mob0, mem[1])
         result = lib("search", gaddlemaps.minimize_molecules, fixed_in, mob_in, mob0.mean(axis=0), case["sigma"],
                      budget, restr, tab, case["width"], deform)
     finally:
